@@ -218,4 +218,67 @@ def _mk(engine_name, mod, clsname):
     return C
 
 
-CONTRACTS = [_mk(*t) for t in TARGETS]
+class PandasDateTimeCoerceLeavesTheDtypeAlone(Contract):
+    """pandas_engine.DateTime.coerce (incl. the time_zone_agnostic preparation, which re-assigns `tz` / `type` on the receiver): on
+    every exit the dtype object holds what it held at entry, and every attribute store re-binds the very object that was there
+    (so no reader in another thread can observe a change).
+    Class invariant assumed at entry (established by __post_init__, the only other writer): `unit` is a non-empty string and, with a
+    time zone, `type is pd.DatetimeTZDtype(unit, tz)` (pandas interns DatetimeTZDtype instances per (unit, tz): one object per pair)."""
+
+    target = "pandera.engines.pandas_engine:DateTime.coerce"
+    raises = (OtherException,)
+    strict_frame = True
+    split = {"tz": ["given", "None"], "agnostic": [True, False]}
+
+    def setup(self, I):
+        DL.install(I)
+        import numpy as np
+        import pandas as pd
+        from pandera.engines import utils as EU
+        from pandera.errors import ParserError
+
+        self.raises = (ParserError,)
+        interned = {}
+
+        def dtz(I_, unit=None, tz=None, *a, **k):
+            key = (id(unit), id(tz))
+            if key not in interned:
+                interned[key] = (OpaqueVal("DatetimeTZDtype(unit, tz)"), unit, tz)  # (keeps unit / tz alive: ids stay unique)
+            return interned[key][0]
+
+        cur_interned = interned
+        self._dtz = lambda unit, tz: dtz(None, unit, tz)
+        I.models[id(pd.DatetimeTZDtype)] = dtz
+        I.models[id(np.dtype)] = lambda I_, *a, **k: OpaqueVal("np.dtype(..)")
+        I.models[id(pd.Timestamp)] = lambda I_, *a, **k: OpaqueVal("Timestamp")
+        I.models[id(EU.numpy_pandas_coerce_failure_cases)] = lambda I_, *a, **k: OpaqueVal("failure_cases")
+        I.models[id(pandas_engine.DateTime._coerce)] = lambda I_, self_obj, data, pandas_dtype=None: (cur().ghost.__setitem__("cast_to", pandas_dtype), OpaqueVal("coerced"))[1]
+
+    def make_args(self):
+        cls = pandas_engine.DateTime
+        s = Obj(cls, "self", pre=True, fields=engine_fields(cls))
+        unit = T.fresh_value(T.Str, "unit")
+        cur().assume(SBool(z3.Length(unit.z) > 0))
+        tz = OpaqueVal("tzinfo") if self.fixed.get("tz", "given") == "given" else None
+        ty = self._dtz(unit, tz) if tz is not None else OpaqueVal("datetime64[ns]")
+        for a, v in (("unit", unit), ("tz", tz), ("type", ty), ("time_zone_agnostic", self.fixed.get("agnostic", False))):
+            s.attrs[a] = v
+            s.attrs0[a] = v
+        cur().ghost["entry_type"] = ty
+        return {"self": s, "data_container": OpaqueVal("data_container")}
+
+    def call_target(self, I, fn, a):
+        return I.call(fn, [a["self"], a["data_container"]], {})
+
+    def ensures(self, result, old, self_, data_container):
+        return {"cast_to_the_declared_native_type": cur().ghost.get("cast_to") is cur().ghost["entry_type"]}
+
+    def on_raise(self, exc, old, self_, data_container):
+        from pandera.errors import ParserError
+
+        if exc.cls is ParserError:
+            return {"parser_error_only_for_time_zone_agnostic_coercion": self.fixed.get("agnostic") is True}
+        return {}
+
+
+CONTRACTS = [_mk(*t) for t in TARGETS] + [PandasDateTimeCoerceLeavesTheDtypeAlone]
